@@ -233,7 +233,7 @@ def pc_infeasible(pc):
                     conds.append((("bin", "&&", ("matches", c[1], d), g), False))
     clauses = []
     for t, pol in conds:
-        x, p = terms._strip_not(nz(t), pol)
+        x, p = terms._strip_not(nz(decompose_matches(nz(t))), pol)
         clauses += terms.to_clauses(x, p)
     if len(clauses) > 60:
         return False
@@ -496,6 +496,11 @@ def slice_of(pos):
         r = pos[2]
         if r[0] == "call" and last(r[1]) == "iter":
             return r[2][0]
+    if pos[0] == "call" and isinstance(pos[1], str) and last(pos[1]) == "position" and "Iterator" in pos[1] and len(pos[2]) == 2:
+        # Iterator::position with a function value (a predicate parameter): a position of the iterated slice whatever the predicate is
+        r = pos[2][0]
+        if r[0] == "call" and last(r[1]) == "iter":
+            return r[2][0]
     if pos[0] in ("call", "rec") and last(pos[1]).startswith("index_of_first"):
         return pos[2][0]
     return None
@@ -548,10 +553,26 @@ def discharged_in_callers(prog, eng, f, st, kind, what, lens, reach):
         if g.crate != f.crate or g is f:
             continue
         for cs in eng.summary(g).all_sites():
-            if cs.kind == "call" and isinstance(cs.callee, str) and prog.resolve_local(g.crate, cs.callee) is f:
+            if cs.kind in ("call", "mcall") and isinstance(cs.callee, str) and prog.resolve_local(g.crate, cs.callee) is f:
                 calls.append(cs)
     if not calls:
         return None
+    # where the helper was inlined into its callers, the site is present there with the caller's context (closures and function
+    # values passed to the helper are applied): that copy is examined
+    deep = []
+    callers_with_copy = set()
+    for qn in reach:
+        g = prog.fns[qn]
+        if g.crate != f.crate or g is f:
+            continue
+        for x in eng.summary(g).deep_sites:
+            if x.fn is st.fn and x.node is not None and st.node is not None and x.node.get("id") == st.node.get("id") and x.kind == st.kind:
+                deep.append(x)
+                callers_with_copy.add(qn)
+    callers = {cs.fn.qual for cs in calls if cs.fn is not None and cs.fn is not f}
+    if deep and callers and callers <= callers_with_copy:
+        if all(g1_discharged(x, kind, what, None) or batch_of_one(x, kind, lens) for x in deep):
+            return f"guarded in each of the {len(callers)} caller(s) this private helper is inlined into ({len(deep)} copies of the site)"
     for cs in calls:
         if len(cs.args) != len(pn):
             return None
@@ -737,6 +758,42 @@ def run(prog, rep):
     rep.floor("C14-R3", 9)
 
 
+def uncovered_callers(prog, en, eng, callee):
+    """Functions that call `callee` without that call being part of eval_node's summary (helpers of the evaluation layer are inlined
+    there, so their calls are examined with eval_node's context; any other caller is outside the argument)."""
+    covered = {(x.fn.qual, (x.node or {}).get("id")) for x in en.summ.all_sites() if x.kind == "call" and x.is_call_to(callee) and x.fn is not None}
+    out = []
+    for f in prog.lib_fns():
+        for s_ in eng.summary(f).sites:
+            if s_.kind == "call" and s_.is_call_to(callee) and (f.qual, (s_.node or {}).get("id")) not in covered:
+                out.append(f)
+                break
+    return out
+
+
+def decompose_matches(t, memo=None):
+    """matches(x, V(p, q)) with non-trivial sub-patterns == matches(x, V(_, _)) && matches(x~V.0, p) && matches(x~V.1, q)."""
+    if memo is None:
+        memo = {}
+    if not isinstance(t, tuple) or not t:
+        return t
+    hit = memo.get(id(t))
+    if hit is not None and hit[0] is t:
+        return hit[1]
+    r = tuple(decompose_matches(x, memo) if isinstance(x, tuple) else x for x in t)
+    if r[0] == "matches" and r[2][0] == "var" and r[2][2] and r[2][3] != "struct" and any(isinstance(sd, tuple) and sd and sd[0] not in ("wild",) for sd in r[2][2]):
+        x, d = r[1], r[2]
+        acc = ("matches", x, ("var", d[1], tuple(("wild",) for _ in d[2]), d[3]))
+        for i, sd in enumerate(d[2]):
+            if isinstance(sd, tuple) and sd and sd[0] != "wild":
+                acc = ("bin", "&&", acc, decompose_matches(("matches", ("proj", x, d[1], i), sd), memo))
+        r = acc
+    elif all(a is b for a, b in zip(r, t)):
+        r = t
+    memo[id(t)] = (t, r)
+    return r
+
+
 def verify_prerequisites(prog, rep, eng):
     """Re-verify what the table lines rely on; returns name -> bool."""
     out = {}
@@ -755,23 +812,24 @@ def verify_prerequisites(prog, rep, eng):
     if en.ok():
         for key, shape, alts, kind, op in sem.domain_shapes():
             sem.check_shape(sub, "X", en, shape, alts, key)
-        callers = [f for f in prog.lib_fns() if f is not en.fn and any(s.kind == "call" and s.is_call_to("restrict_stg_unit_bdd") for s in eng.summary(f).sites)]
+        callers = uncovered_callers(prog, en, eng, "restrict_stg_unit_bdd")
     out["restrict-guard"] = en.ok() and all(i.verdict == "ok" for i in sub.instances) and len(sub.instances) >= 3 and not callers
     # jump arm first: the quantifier wrapper is only reached for non-jump operators
     ok = False
     if en.ok():
-        sites = [s for s in terms.Engine(prog, inline=False).summary(en.fn).sites if s.kind == "call" and s.is_call_to("eval_hybrid_quantifier")]
+        # on eval_node's summary (helpers of the layer inlined): wherever the wrapper is called, the operator cannot be Jump - the path
+        # condition together with `operator is Jump` contradicts itself (an earlier Jump arm, a test, a dispatch in a helper ..)
+        sites = [s for s in en.summ.all_sites() if s.kind == "call" and s.is_call_to("eval_hybrid_quantifier")]
         ok = bool(sites)
+        wrapper = prog.lib_fn(E.ALG + "eval_hybrid_quantifier")
+        opi = next((i for i, t in enumerate(wrapper.param_tys) if "HybridOp" in t), None) if wrapper is not None else None
+        jump = ("var", "preprocessing::operator_enums::HybridOp::Jump", (), None)
         for s in sites:
-            prior_jump = False
-            for c in s.pc:
-                if c[0] == "match" and c[3] and len(c) > 5:
-                    for d in c[5]:
-                        if d[0] == "var" and str(d[1]).endswith("NodeType::Hybrid") and d[2] and d[2][0][0] == "var" and str(d[2][0][1]).endswith("HybridOp::Jump"):
-                            prior_jump = True
-            ok = ok and prior_jump
-        others = [f for f in prog.lib_fns() if f is not en.fn and any(s.kind == "call" and s.is_call_to("eval_hybrid_quantifier") for s in eng.summary(f).sites)]
-        ok = ok and not others
+            if opi is None or opi >= len(s.args):
+                ok = False
+                continue
+            ok = ok and pc_infeasible(tuple(s.pc) + (("if", ("matches", strip_clone(s.args[opi]), jump), True, None),))
+        ok = ok and not uncovered_callers(prog, en, eng, "eval_hybrid_quantifier")
     out["jump-arm-first"] = ok
     # validators on every string entry path
     sub = R("p3")
